@@ -2,7 +2,7 @@
 from .. import gen
 from . import common
 
-SPEC_THEOREM = 'Props/C09: parse_json_path is total (no Panic); documented forms parse to the intended AST; print/parse round trip on safe ASTs'
+SPEC_THEOREM = 'Props/C09: parse_json_path is total (no Panic); documented forms parse to the intended AST; C09_print_then_parse_is_identity / C09_accepted_path_round_trips: print then parse is the identity on safe_path (= accepted paths satisfying leaf_path)'
 TRUSTED = ['Coq 8.16.1 kernel', 'translator (raw_string delimiter set, HEX table)', 'extraction + OCaml driver', 'Rust harness',
            'model PathParse.v of jsonpath/parser.rs over modelled nom 7 combinators (alt, many0, separated_list1, i32/i64/u64, double, tag, tag_no_case, multispace0)']
 ASSUMPTIONS = ['nom 7.1.3 combinators and std float parsing are modelled, not verified', 'the intended AST of a rendered path is the AST it was rendered from (generator-side oracle)']
@@ -217,6 +217,7 @@ def generate(ctx):
             texts.append(t)
             cid = ctx.add('parse_json_path %s' % gen.hexarg(t), diff=not has_float(want), meta=('parse', want, t)).id
             ctx.trials.append(cid)
+            ctx.add('reparse_json_path %s' % gen.hexarg(t), diff=not has_float(want), meta=('reparse',))
         ctx.add('print_parse_json_path %s' % want, diff=not has_float(want), meta=('pp', want))
     # documented examples from the README / test data
     for t in [b'$', b'$.*', b'$[*]', b'$.store.book[*].author', b'$.store.book[0, 1 to last-1]', b'$.phones[last]', b'$[last - 2 to last]',
@@ -225,6 +226,18 @@ def generate(ctx):
               b'$.a\t?(@.b\n== 1)', b'$?(@.a == 1&&@.b == 2)', b'$?(@.a==@.b&&@.c==1||@.d==2)', b'$.\xc3\xa9', b'$:a:b', b'$."a b"', b'$[ "a" ]']:
         texts.append(t)
         ctx.add('parse_json_path %s' % gen.hexarg(t), meta=('doc', t))
+    # `last - n` at the i32 boundary (n is read as an i64 and negated with a range check; it was an i32 with saturating_neg,
+    # so that the printout of LastIndex(i32::MIN) was rejected), and the print/parse round trip of the extreme offsets
+    for t in [b'$[last-2147483648]', b'$[last - -2147483648]', b'$[last+-2147483648]', b'$[last-2147483649]', b'$[last - 9223372036854775808]',
+              b'$[last - -9223372036854775808]', b'$[last--2147483647]', b'$[last+2147483647]', b'$[last+2147483648]', b'$[last - 0]', b'$[last + 0]',
+              b'$[-2147483648 to last-2147483648]']:
+        texts.append(t)
+        ctx.add('parse_json_path %s' % gen.hexarg(t), kind='extreme')
+        ctx.add('reparse_json_path %s' % gen.hexarg(t), kind='extreme', meta=('reparse',))
+    for t in [b'."5e"', b'$."5e"', b'."5"', b'$?(@.a == +5)', b'$."a b"', b'$?(+$.a || -@.b)', b'$?($.a + 1)', b'$?(@.a * @.b)']:
+        ctx.add('reparse_json_path %s' % gen.hexarg(t), kind='excluded-class', meta=('reparse',))
+    for want in ['R;I(l-2147483648)', 'R;I(l2147483647)', 'R;I(Sx-2147483648~l-2147483648)', 'R;I(l-2147483647,x2147483647)']:
+        ctx.add('print_parse_json_path %s' % want, meta=('pp', want))
     # raw input: prefixes, single-byte mutations, soups
     alphabet = b'$@.:*[]()?!=<>&|+-,"\\ \t\nlasttoexistsnulltruefalse0123456789eE.u{}a'
     for t in r.sample(texts, min(len(texts), ctx.scale(250, 5000))):
@@ -236,9 +249,12 @@ def generate(ctx):
             b = bytes([r.choice(alphabet)]) if r.random() < 0.9 else bytes([r.randrange(256)])
             m = t[:i] + b + t[i:] if c < 0.4 else (t[:i] + t[i + 1:] if c < 0.7 else t[:i] + b + t[i + 1:])
             ctx.add('parse_json_path %s' % gen.hexarg(m), kind='mutation')
+            ctx.add('reparse_json_path %s' % gen.hexarg(m), kind='mutation', meta=('reparse',))
     for _ in range(ctx.scale(3000, 100000)):
         n = r.randrange(1, 12)
-        ctx.add('parse_json_path %s' % gen.hexarg(bytes(r.choice(alphabet) for _ in range(n))), kind='soup')
+        soup = gen.hexarg(bytes(r.choice(alphabet) for _ in range(n)))
+        ctx.add('parse_json_path %s' % soup, kind='soup')
+        ctx.add('reparse_json_path %s' % soup, kind='soup', meta=('reparse',))
     # escapes inside plain names, quoted names and string literals, every truncation
     for nm in common.escape_forms(ctx, ctx.scale(150, 4000)):
         for t in ('$.' + nm, '$."' + nm + '"', '$.a.' + nm + '[0]', '$?(@.a == "' + nm + '")', '$["' + nm + '"]', nm + '.b'):
@@ -253,6 +269,9 @@ def generate(ctx):
 def normalise_outcome(case, o):
     """the printed text of a path with a float literal is ryu's on one side and the placeholder on the other"""
     f = o.split(' ')
+    if f and f[-1].startswith('leaf='):
+        f = f[:-1]
+        o = ' '.join(f)
     if len(f) >= 3 and f[0] in ('ok', 'err') and 'vd' in f[1]:
         return ' '.join(f[:2])
     if f[0] == 'err' and len(f) >= 3 and case.line.startswith('print_parse') and 'vd' in case.line:
@@ -276,6 +295,18 @@ def judge(ctx):
         elif m[0] == 'pp':
             if not o.startswith('ok ') or o.split(' ')[1] != m[1]:
                 ctx.violate('printing a path and parsing the printout does not give the same structure', case=c.line, expected=m[1], observed=o[:300])
+        elif m[0] == 'reparse':
+            # where the round-trip theorem applies (the model says leaf_path holds for the accepted path), the
+            # implementation's own print-then-parse must give back the same structure
+            mo = ctx.model.get(c.id, '')
+            f = o.split(' ')
+            if mo.endswith(' leaf=1'):
+                ctx.count('reparse', 'theorem-applies')
+                if len(f) != 3 or f[0] != 'ok' or f[1] != f[2]:
+                    ctx.violate('an accepted path in the class of the round-trip theorem does not print and parse back to itself',
+                                case=c.line, text=repr(gen.unhexarg(c.line.split(' ')[1]))[:200], observed=o[:300], model=mo[:300])
+            elif mo.startswith('ok '):
+                ctx.count('reparse', 'outside-class')
         elif m[0] == 'doc':
             if not o.startswith('ok '):
                 ctx.violate('a documented example is rejected', case=c.line, text=repr(m[1]), observed=o)
